@@ -1,3 +1,4 @@
+import Proofs.HandlerSteps
 import Proofs.Hyperslab
 import Proofs.Sched
 import Proofs.Slice
